@@ -110,7 +110,9 @@ def l1_l2(e: Engine, rep: Report):
     # one below the bound, _remove_client replaces the one it dropped
     for meth in ('_check_idle', '_remove_client'):
         cx = e.method_ctx(POOL, meth)
-        gg = e.build(cx, raises=lambda b, n, r: set())
+        gg = e.build(cx, raises=lambda b, n, r: set(),
+                     inline=e.inline_same_self(deny=['_add_client']),
+                     max_depth=4)
         adds = [n for n in gg.calls() if e.call_name(n) == '_add_client']
         cnt = dataflow.count_events(gg, lambda n: 1 if n in adds else 0,
                                     cap=3).get(gg.exit.id)
@@ -125,7 +127,9 @@ def l1_l2(e: Engine, rep: Report):
                   loc=cx.func.loc(), reason='0 or 1 _add_client per call')
     # _check_idle guard
     ctx = e.method_ctx(POOL, '_check_idle')
-    g = e.build(ctx)
+    g = e.build(ctx, inline=e.inline_same_self(deny=['_add_client']),
+                max_depth=4)
+    fxi = e.facts(g)
     where = ctx.func.qname
     rep.functions.add(where)
     sites = [n for n in g.calls() if e.call_name(n) == '_add_client']
@@ -156,7 +160,12 @@ def l1_l2(e: Engine, rep: Report):
             return st
         w2 = dataflow.typestate_witness(
             g, False, step, lambda x, st: x is n and st)
-        rep.check(ok_scan and w2 is None, 'L1', where,
+        # the same guard written as an expression: not any(c.idle for c in
+        # self.pool)
+        st_n = fxi.at(n) or frozenset()
+        any_form = any(not p and k.startswith('any(') and '.idle' in k and
+                       'self.pool' in k for p, k in st_n)
+        rep.check((ok_scan and w2 is None) or any_form, 'L1', where,
                   'spawn only when no client is idle',
                   'a client is spawned although an idle client exists (or '
                   'the idle scan over self.pool is gone)', loc=n.loc(),
